@@ -811,3 +811,161 @@ if __name__ == '__main__':
     import sys
     p, src = generate(int(sys.argv[1]) if len(sys.argv) > 1 else 1)
     print(src)
+
+
+# ---------------------------------------------------------------------------
+# targeted families
+def _mk(outs=(), hooks=(), fcodes=(), ycodes=(), body=()):
+    return {'outs': list(outs), 'hooks': list(hooks), 'fcodes': list(fcodes), 'ycodes': list(ycodes), 'macros': [], 'body': list(body), 'args': []}
+
+
+def gen_case_program(seed, yield_mode=False):
+    """C08: a case / greedy case whose clauses carry distinct markers (enum assignment + hook, or a yield code)"""
+    r = random.Random(seed)
+    A = list(b'abcxy')
+    n = r.randint(2, 5)
+    greedy = r.random() < 0.45
+    g = Gen(seed, {'regex', 'stri'}, alphabet=bytes(A))
+    g.decls()
+    vals = ['K%d' % i for i in range(n + 1)]
+    outs = [{'name': 'which', 'type': 'enum', 'values': vals + ['KNONE'], 'default': None},
+            {'name': 'cnt', 'type': 'int', 'signed': None, 'width': None, 'default': 0}]
+    hooks = ['c%d' % i for i in range(n + 1)]
+    ycodes = ['Y%d' % i for i in range(n + 1)] if yield_mode else []
+    firsts = r.sample(A, min(n, len(A)))
+    cl = []
+    for i in range(n):
+        ps = []
+        for _ in range(1 if r.random() < 0.75 else 2):
+            k = r.random()
+            if greedy or k < 0.35:
+                q = r.random()
+                if q < 0.5:
+                    ps.append({'k': 're', 'r': g.regex(1), 'bin': False})
+                elif q < 0.8:
+                    ps.append({'k': 'str', 'bytes': [r.choice(A) for _ in range(r.randint(1, 3))]})
+                else:
+                    ps.append({'k': 'stri', 'bytes': [r.choice(A) for _ in range(r.randint(1, 2))]})
+            else:
+                ps.append({'k': 'str', 'bytes': [firsts[i % len(firsts)]] + [r.choice(A) for _ in range(r.randint(0, 2))]})
+        marker = [{'t': 'yield', 'code': 'Y%d' % i}] if yield_mode else \
+                 [{'t': 'set', 'var': 'which', 'e': {'k': 'enum', 'name': 'K%d' % i}}, {'t': 'hook', 'n': 'c%d' % i}]
+        body = list(marker)
+        k = r.random()
+        if k < 0.3:
+            body = []        # empty clause
+        elif k < 0.55:
+            body.append({'t': 'match', 'm': {'k': 'str', 'bytes': [r.choice(A)]}})
+        elif k < 0.65:
+            body = [{'t': 'match', 'm': {'k': 'str', 'bytes': [r.choice(A)]}}] + marker
+        if greedy and body and all(x['t'] not in ('match',) for x in body):
+            # known finding greedy-action-only-early: action-only clause bodies of a greedy case fire on entering the
+            # finishing state; keep random exploration off that class (its pinned witness is re-run by the check)
+            body.append({'t': 'match', 'm': {'k': 'str', 'bytes': [r.choice(A)]}})
+        cl.append({'ps': ps, 'prio': r.choice([0, 0, 1, 2]) if greedy else 0, 'b': body})
+    if r.random() < 0.6:
+        marker = [{'t': 'yield', 'code': 'Y%d' % n}] if yield_mode else \
+                 [{'t': 'set', 'var': 'which', 'e': {'k': 'enum', 'name': 'K%d' % n}}, {'t': 'hook', 'n': 'c%d' % n}]
+        eb = r.choice([[], marker, marker + [{'t': 'match', 'm': {'k': 'str', 'bytes': [r.choice(A)]}}], [{'t': 'match', 'm': {'k': 're', 'r': {'k': 'any'}, 'bin': False}}] + marker])
+        if r.random() < 0.25 and cl:
+            cl[-1]['ps'].append('else')
+        else:
+            cl.append({'ps': ['else'], 'prio': 0, 'b': eb})
+    case = {'t': 'case', 'greedy': greedy, 'cl': cl}
+    body = []
+    if r.random() < 0.4:
+        body.append({'t': 'match', 'm': {'k': 'str', 'bytes': [r.choice(b'pq')]}})
+    if r.random() < 0.35:
+        inner = [case, {'t': 'set', 'var': 'cnt', 'e': {'k': 'bin', 'op': '+', 'l': {'k': 'var', 'name': 'cnt'}, 'r': {'k': 'num', 'v': 1}}},
+                 {'t': 'if', 'br': [{'c': {'k': 'bin', 'op': '>=', 'l': {'k': 'var', 'name': 'cnt'}, 'r': {'k': 'num', 'v': 2}}, 'b': [{'t': 'break', 'loop': None}]}], 'els': None}]
+        if r.random() < 0.5:
+            inner = [{'t': 'try', 'b': inner[:1], 'handles': ['nomatch'], 'h': [{'t': 'set', 'var': 'which', 'e': {'k': 'enum', 'name': 'KNONE'}}, {'t': 'wait', 'm': {'k': 'str', 'bytes': [0x3b]}}]}] + inner[1:]
+        body.append({'t': 'loop', 'name': None, 'b': inner})
+    else:
+        body.append(case)
+    body.append({'t': 'match', 'm': {'k': 'str', 'bytes': [0x21]}})
+    p = _mk(outs, hooks, [], ycodes, body)
+    return p, spell_program(p)
+
+
+def gen_wait_program(seed):
+    """C16: wait patterns (literal, case-insensitive, regex with loops, concatenation), bare and inside try blocks"""
+    r = random.Random(seed)
+    A = list(b'abcd')
+    g = Gen(seed, {'regex', 'stri'}, alphabet=bytes(A))
+    g.decls()
+    k = r.random()
+    if k < 0.35:
+        pat = {'k': 'str', 'bytes': [r.choice(A) for _ in range(r.randint(1, 4))]}
+    elif k < 0.5:
+        pat = {'k': 'stri', 'bytes': [r.choice(A) for _ in range(r.randint(1, 3))]}
+    elif k < 0.85:
+        rx = g.regex(0)
+        for _ in range(5):
+            if not regex_nullable(rx):
+                break
+            rx = g.regex(0)
+        pat = {'k': 're', 'r': rx, 'bin': False} if not regex_nullable(rx) else {'k': 'str', 'bytes': [97, 98]}
+    else:
+        pat = {'k': 'cat', 'ms': [{'k': 'str', 'bytes': [r.choice(A)]}, {'k': 'str', 'bytes': [r.choice(A), r.choice(A)]}]}
+    outs = [{'name': 'n', 'type': 'int', 'signed': None, 'width': None, 'default': 0}, {'name': 's', 'type': 'str', 'size': 4, 'term': True, 'default': None}]
+    hooks = ['got', 'err']
+    after = [{'t': 'hook', 'n': 'got'}, {'t': 'match', 'm': {'k': 'str', 'bytes': [r.choice(b'xy')]}}]
+    shape = r.random()
+    if shape < 0.3:
+        body = [{'t': 'wait', 'm': pat}] + after
+    elif shape < 0.65:
+        body = [{'t': 'try', 'b': [{'t': 'match', 'm': {'k': 'str', 'bytes': [r.choice(b'xy')]}}, {'t': 'wait', 'm': pat}] + after,
+                 'handles': r.choice([None, ['nomatch']]), 'h': [{'t': 'hook', 'n': 'err'}, {'t': 'match', 'm': {'k': 'str', 'bytes': [0x3b]}}]}]
+    elif shape < 0.85:
+        body = [{'t': 'loop', 'name': None, 'b': [{'t': 'wait', 'm': pat}, {'t': 'set', 'var': 'n', 'e': {'k': 'bin', 'op': '+', 'l': {'k': 'var', 'name': 'n'}, 'r': {'k': 'num', 'v': 1}}},
+                                                     {'t': 'hook', 'n': 'got'},
+                                                     {'t': 'if', 'br': [{'c': {'k': 'bin', 'op': '>=', 'l': {'k': 'var', 'name': 'n'}, 'r': {'k': 'num', 'v': 2}}, 'b': [{'t': 'break', 'loop': None}]}], 'els': None}]},
+                {'t': 'match', 'm': {'k': 'str', 'bytes': [r.choice(b'xy')]}}]
+    else:
+        body = [{'t': 'try', 'b': [{'t': 'append', 'var': 's', 'm': {'k': 're', 'r': {'k': 'plus', 'c': {'k': 'set', 'inv': False, 'items': [['ch', 120], ['ch', 121]]}}, 'bin': False}},
+                                   {'t': 'match', 'm': {'k': 'str', 'bytes': [0x3a]}}],
+                 'handles': None, 'h': [{'t': 'hook', 'n': 'err'}, {'t': 'foreach', 'b': [{'t': 'wait', 'm': pat}], 'acts': [{'t': 'set', 'var': 'n', 'e': {'k': 'bin', 'op': '+', 'l': {'k': 'var', 'name': 'n'}, 'r': {'k': 'num', 'v': 1}}}]}] + after}]
+    p = _mk(outs, hooks, [], [], body)
+    return p, spell_program(p)
+
+
+def gen_end_program(seed):
+    """C17: `end` in match, case and wait positions, in handlers, followed by actions and finish codes"""
+    r = random.Random(seed)
+    A = list(b'abc')
+    outs = [{'name': 'seen', 'type': 'int', 'signed': None, 'width': None, 'default': 0}]
+    hooks = ['h']
+    fcodes = ['EARLY', 'LATE']
+    END_ = {'k': 'end'}
+
+    def lit(n=None):
+        return {'t': 'match', 'm': {'k': 'str', 'bytes': [r.choice(A) for _ in range(n or r.randint(1, 2))]}}
+    mark = lambda v: {'t': 'set', 'var': 'seen', 'e': {'k': 'num', 'v': v}}
+    shape = r.randrange(8)
+    if shape == 0:
+        body = [lit(), {'t': 'match', 'm': END_}]
+    elif shape == 1:
+        body = [lit(), {'t': 'match', 'm': END_}, mark(2), {'t': 'hook', 'n': 'h'}] + ([{'t': 'finish', 'code': 'LATE'}] if r.random() < 0.5 else [])
+    elif shape == 2:
+        body = [lit(), {'t': 'case', 'greedy': False, 'cl': [{'ps': [END_], 'prio': 0, 'b': [mark(2)] + ([{'t': 'finish', 'code': 'EARLY'}] if r.random() < 0.5 else [])},
+                                                               {'ps': [{'k': 'str', 'bytes': [120]}], 'prio': 0, 'b': [mark(3), lit(1)]}] +
+                        ([{'ps': ['else'], 'prio': 0, 'b': [mark(4)]}] if r.random() < 0.4 else [])}]
+    elif shape == 3:
+        body = [{'t': 'try', 'b': [lit(3)], 'handles': ['nomatch'],
+                 'h': [{'t': 'case', 'greedy': False, 'cl': [{'ps': [END_], 'prio': 0, 'b': [mark(2)]}, {'ps': ['else'], 'prio': 0, 'b': [{'t': 'wait', 'm': {'k': 'str', 'bytes': [122]}}, mark(5)]}]}]}]
+    elif shape == 4:
+        body = [lit(), {'t': 'match', 'm': {'k': 're', 'r': {'k': 'star', 'c': {'k': 'set', 'inv': True, 'items': [['ch', 120], ['ch', 121]]}}, 'bin': False}},
+                {'t': 'try', 'b': [{'t': 'match', 'm': {'k': 'str', 'bytes': [121]}}], 'handles': ['nomatch'],
+                 'h': [{'t': 'case', 'greedy': False, 'cl': [{'ps': [END_], 'prio': 0, 'b': [mark(2)]}, {'ps': [{'k': 'str', 'bytes': [120]}], 'prio': 0, 'b': [mark(3)]}]}]}]
+    elif shape == 5:
+        body = [{'t': 'loop', 'name': None, 'b': [{'t': 'case', 'greedy': False, 'cl': [
+            {'ps': [END_], 'prio': 0, 'b': [mark(9), {'t': 'break', 'loop': None}]},
+            {'ps': [{'k': 're', 'r': {'k': 'set', 'inv': False, 'items': [['ch', 97], ['ch', 98]]}, 'bin': False}], 'prio': 0,
+             'b': [{'t': 'set', 'var': 'seen', 'e': {'k': 'bin', 'op': '+', 'l': {'k': 'var', 'name': 'seen'}, 'r': {'k': 'num', 'v': 1}}}]}]}]}, {'t': 'hook', 'n': 'h'}]
+    elif shape == 6:
+        body = [lit(), {'t': 'wait', 'm': {'k': 'cat', 'ms': [{'k': 'str', 'bytes': [r.choice(A)]}, END_]}}, mark(2)]
+    else:
+        body = [lit(), {'t': 'opt', 'b': [lit(1)]}, {'t': 'match', 'm': END_}, mark(7)]
+    p = _mk(outs, hooks, fcodes, [], body)
+    return p, spell_program(p)
